@@ -35,7 +35,9 @@ func Group(services *fun.Iterator[*Service]) *Service {
 
 	return &Service{
 		Run: func(ctx context.Context) error {
+			var members []*Service
 			for services.Next(ctx) {
+				members = append(members, services.Value())
 				wg.Add(1)
 				go func(s *Service) {
 					defer erc.Recover(ec)
@@ -46,6 +48,14 @@ func Group(services *fun.Iterator[*Service]) *Service {
 			}
 			wg.Wait(ctx)
 			ec.Add(waiters.Close())
+
+			// the members run under this context, which is
+			// canceled as soon as Run returns: keep running
+			// until every member has returned or the
+			// group's own context ends.
+			for _, s := range members {
+				_ = s.waitFor(ctx)
+			}
 			return nil
 		},
 		Cleanup: func() error {
